@@ -10,13 +10,16 @@ from ..flow import function_defs, names_loaded, reaching_definitions
 PROP = "C20"
 LEVEL = "other"
 EXPLANATION = (
-    "Decided from xitorch/_core/packer.py: (T) traversal agreement - _extract_tensors and _put_tensors have the same ordered "
-    "case list (Tensor, list, dict, __dict__) and iterate each container in the same order, so position i is refilled with the "
-    "i-th tensor; (F) fresh-copy effects - the mutating _put_tensors is only applied to a value whose every reaching definition "
+    "Decided from xitorch/_core/packer.py: (T) traversal agreement - an abstract run (no code is executed; the statements are "
+    "interpreted over abstract lists / dicts / objects / tensor tokens, recursion followed) of _extract_tensors and _put_tensors over a "
+    "nested list / dict / object / tuple: every tensor is extracted once and the position that held the j-th extracted tensor is "
+    "refilled with the j-th new one, non-tensor leaves are untouched, the list is consumed (fall-back when a body is outside the "
+    "interpreter's vocabulary: the two ordered case lists and iteration sources are compared); (F) fresh-copy effects - the mutating _put_tensors is only applied to a value whose every reaching definition "
     "is deepcopy(self._obj, <fresh copy of the tensor memo>), its list argument is a fresh list on every path, __init__ deep-copies "
     "the caller's object, and construct_* contain no store into self; (R) rejection dominance - wrong lengths / shapes / element "
-    "counts raise before any refill; (I) identity de-duplication - uniqueness is keyed on id() and the inverse map is applied "
-    "before refilling (aliased positions stay aliased). NOT decided: exhaustive structure / aliasing enumeration, tuple handling.")
+    "counts raise before any refill; (I) identity de-duplication - abstract run of _get_unique_idxs over "
+    "[T0, T1, T0, T2, T1] gives ([0, 1, 3], [0, 1, 0, 2, 1]) and the inverse map is applied before refilling (aliased positions "
+    "stay aliased). NOT decided: exhaustive structure / aliasing enumeration, tuple handling.")
 ASSUMPTIONS = ["copy.deepcopy with a memo that maps id(t)->t shares exactly those tensors and copies everything else"]
 
 PACK = "xitorch/_core/packer.py"
